@@ -61,7 +61,11 @@ type expectation struct {
 }
 
 func NewRun(p *Prog, prop, tier string) *Run {
-	return &Run{Prop: prop, Tier: tier, P: p, Funcs: map[string]bool{}, start: procStart, ruleKinds: map[string]string{}}
+	r := &Run{Prop: prop, Tier: tier, P: p, Funcs: map[string]bool{}, start: procStart, ruleKinds: map[string]string{}}
+	for _, n := range p.RenameNotes {
+		r.Notes = append(r.Notes, "renamed anchor: "+n)
+	}
+	return r
 }
 
 func (r *Run) rule(n string) string {
